@@ -47,6 +47,8 @@ def run_contract(check, tier, measures=kernel.MEASURES, kinds=None, sizes=None, 
                  cross_every=None, max_obligations=None, always=('pl',)):
     """Prove K of the real kernel functions.  Each `sat` becomes a violation detail that the replay
     turns into the canonical worst-case tables."""
+    if check._skip(name):
+        return None
     t0 = time.time()
     n_val, bad = validate_translator(check.seed)
     result = dict(obligations=0, discharged=0, solver_s=0.0, queries=0, violations=[],
